@@ -1,103 +1,10 @@
-import RlModel.Model.Sexp
+import RlModel.Gen.Schema
 /-
-C17 — deep-syntax model of what `executor::Builder::build_id_subscriber`
-(src/executor/mod.rs) accepts.  A plan refers to its child's output BY EXPRESSION IDENTITY
-(`resolve_column_index_on_schema`: an expression that occurs in the child's schema becomes a
-column index, otherwise it is kept and its children are resolved; a bare column that is not in
-the schema panics "column … not found from input").
-
-Terms (`Tm`) are plans/expressions with classified atoms, so that everything is decidable by the
-kernel; `ofSexp` reads the text `RecExpr: Display` prints.
-
-* `schema`   — `rules/schema.rs analyze_schema`
-* `resolve`  — `resolve_column_index_on_schema`
-* `check`    — the builder's match arms: which node kinds have an executor, which of its
-                `assert!`/`panic!`/`todo!()` sites a plan reaches
-* `usedCols`, `produced`, `applyProjOrder` — the projection-pushdown applier `apply_proj` of
-                `rules/plan.rs` for the `pushdown-proj-order` rule
-
-Import-free besides `Sexp` (the driver links as an executable).
+C17 — the plan checker: `resolve`, `check`, the `apply_proj` applier, the plan-text reader.
+Term language: `Model/PlanTm.lean`; `schema`: `Gen/Schema.lean` (generated from the source).
 -/
 namespace RlModel.Wf
 open RlModel
-
-/-- Operator heads that matter to the builder; every other operator is `other`. -/
-inductive Hd where
-  | filter | order | limit | topn | empty | join | hashjoin | mergejoin | apply | scan | values
-  | proj | agg | window | hashagg | sortagg | list | ref | insert | delete | copyTo | analyze
-  | explain | indexScan | exists_ | in_
-  | other (code : Nat)
-  deriving DecidableEq, Repr
-
-inductive JT where
-  | inner | leftOuter | rightOuter | fullOuter | semi | anti
-  deriving DecidableEq, Repr
-
-inductive Leaf where
-  | tru                 -- the constant `true`
-  | null
-  | num (n : Nat)       -- a non-negative integer constant
-  | jt (t : JT)
-  | table (id : Nat)
-  | other (code : Nat)  -- any other atom
-  deriving DecidableEq, Repr
-
-inductive Tm where
-  | col (tbl c : Nat)          -- `$t.c`
-  | leaf (l : Leaf)
-  | node (h : Hd) (args : List Tm)
-  deriving Repr
-
-mutual
-  def Tm.beq : Tm → Tm → Bool
-    | .col a b, .col c d => a == c && b == d
-    | .leaf a, .leaf b => decide (a = b)
-    | .node h xs, .node k ys => decide (h = k) && Tm.beqList xs ys
-    | _, _ => false
-  def Tm.beqList : List Tm → List Tm → Bool
-    | [], [] => true
-    | x :: xs, y :: ys => Tm.beq x y && Tm.beqList xs ys
-    | _, _ => false
-end
-
-instance : BEq Tm := ⟨Tm.beq⟩
-
-def listItems : Tm → List Tm
-  | .node .list xs => xs
-  | _ => []
-
-def isListNode : Tm → Bool
-  | .node .list _ => true
-  | _ => false
-
-def isSemiAnti : Tm → Bool
-  | .leaf (.jt .semi) => true
-  | .leaf (.jt .anti) => true
-  | _ => false
-
-def isColumn : Tm → Bool
-  | .col _ _ => true
-  | _ => false
-
-/-- `analyze_schema`: the list of expression identities a plan node outputs. -/
-def schema : Tm → List Tm
-  | .node .filter [_, c] => schema c
-  | .node .order [_, c] => schema c
-  | .node .limit [_, _, c] => schema c
-  | .node .topn [_, _, _, c] => schema c
-  | .node .empty [c] => schema c
-  | .node .join [t, _, l, r] => if isSemiAnti t then schema l else schema l ++ schema r
-  | .node .hashjoin [t, _, _, _, l, r] => if isSemiAnti t then schema l else schema l ++ schema r
-  | .node .mergejoin [t, _, _, _, l, r] => if isSemiAnti t then schema l else schema l ++ schema r
-  | .node .apply [t, l, r] => if isSemiAnti t then schema l else schema l ++ schema r
-  | .node .scan [_, cols, _] => listItems cols
-  | .node .values (row :: _) => listItems row
-  | .node .proj [es, _] => listItems es
-  | .node .agg [es, _] => listItems es
-  | .node .window [es, c] => schema c ++ listItems es
-  | .node .hashagg [ks, as, _] => listItems ks ++ listItems as
-  | .node .sortagg [ks, as, _] => listItems ks ++ listItems as
-  | _ => []
 
 def indexOf? (x : Tm) : List Tm → Nat → Option Nat
   | [], _ => none
